@@ -4,6 +4,7 @@
 # agree) and audits it:
 #   1. every file of lean/SeqVerif/Consistency/ is imported (directly or transitively) by the umbrella module;
 #   2. `lake build SeqVerif.Consistency` succeeds (under the build lock);
+#   1b. no Consistency module depends (transitively) on SeqVerif.Extracted.* (regenerated per run) or Props;
 #   3. no forbidden token (sorry, admit, axiom, native_decide, bv_decide, implemented_by, unsafe, maxHeartbeats 0)
 #      outside comments / strings in any Consistency file;
 #   4. `#print axioms` of every `cons_*` theorem (generated file lean/.audit/Consistency.lean) stays within
@@ -67,6 +68,27 @@ while todo:
     todo += [x for x in imports(mods[m]) if x in mods]
 for m in sorted(set(mods) - seen):
     bad.append("module %s is not imported by SeqVerif/Consistency.lean" % m)
+
+# 1b. no Consistency module may depend (transitively) on a generated SeqVerif.Extracted.* module or on Props:
+#     those files are rewritten by every ./check run (also for scratch repos), so such a theorem breaks at random
+def lean_path(m):
+    return os.path.join(LEAN, m.replace(".", os.sep) + ".lean")
+dep_seen = {}
+def deps(m):
+    if m in dep_seen: return dep_seen[m]
+    dep_seen[m] = set()
+    p = lean_path(m)
+    out = set()
+    if os.path.exists(p):
+        for x in imports(p):
+            if x.startswith("SeqVerif."):
+                out.add(x); out |= deps(x)
+    dep_seen[m] = out
+    return out
+for m in sorted(mods):
+    gen = sorted(x for x in deps(m) if ".Extracted." in x or ".Props." in x)
+    if gen:
+        bad.append("module %s depends on generated / property modules: %s" % (m, ", ".join(gen[:4])))
 
 # 3. forbidden tokens, and collect the theorems
 thms = []
